@@ -45,6 +45,19 @@ def guarded_check(solver, timeout_ms):
     return r
 
 
+def _has_quantifier(e):
+    stack, seen = [e], set()
+    while stack:
+        x = stack.pop()
+        if x.get_id() in seen:
+            continue
+        seen.add(x.get_id())
+        if z3.is_quantifier(x):
+            return True
+        stack.extend(x.children())
+    return False
+
+
 class PathEnd(Exception):
     """this path ends here (infeasible, or cut at a loop head after the invariant was re-proved)"""
 
